@@ -21,7 +21,8 @@ CONSTANTS Kinds,      \* request kinds enabled in this configuration
           Opens,      \* TRUE: ended connections may be replaced by new ones
           Recvs,      \* TRUE: non-parked requests may wait in the queue (Recv and Proc as separate steps)
           FlagVals, EntPx, JoinSids, ToLists,
-          GenDepth    \* > 0: generator mode, behaviours of this length are exported
+          GenDepth,   \* > 0: generator mode, behaviours of this length are exported
+          TickW, ProcW \* generator: weights (out of 20) of frame ticks and of processing steps
 
 ToListsNone == {<<>>}
 ToListsFull == {<<>>, <<1>>, <<2>>, <<1, 2>>, <<2, 2, 3>>, <<9>>, <<1, 1, 9, 3>>}
@@ -129,20 +130,30 @@ MCSpec == MCInit /\ [][MCNext]_mvars
 (* of field combinations it has; behaviours of GenDepth steps are written  *)
 (* as JSON, one file each, for the Go harness to replay on the real code.  *)
 (***************************************************************************)
+\* bias towards ids that exist: with probability 3/4 the entity / type ids of a request are
+\* replaced by ids that are live in the requester's session (the rest keeps hitting the refusal paths)
+Patch(st, c, r) ==
+  IF st.conns[c].sid = 0 \/ RandomElement(1..4) = 1 THEN r
+  ELSE LET S == st.sess[st.conns[c].sid] IN
+       [f \in DOMAIN r |->
+          CASE f = "eid" /\ DOMAIN S.ents # {} -> RandomElement(DOMAIN S.ents)
+            [] f = "tid" /\ Rng(S.types) # {} -> RandomElement(Rng(S.types))
+            [] OTHER -> r[f]]
+
 GenEvent(st) ==
   LET open   == {x \in Conns : st.conns[x].life # "closed"}
       closed == {x \in Conns : st.conns[x].life = "closed"}
       busy   == {x \in open : st.conns[x].q # <<>>}
       roll   == RandomElement(1..20)
-  IN CASE roll <= 2 /\ DOMAIN st.sess # {} ->
+  IN CASE roll <= TickW /\ DOMAIN st.sess # {} ->
             [step |-> "Tick", conn |-> 0, req |-> [k |-> "none"], sid |-> RandomElement(DOMAIN st.sess)]
-       [] roll \in 3..5 /\ busy # {} ->
+       [] roll \in (TickW + 1)..(TickW + ProcW) /\ busy # {} ->
             [step |-> "Proc", conn |-> RandomElement(busy), req |-> [k |-> "none"], sid |-> 0]
-       [] roll = 6 /\ open # {} ->
+       [] roll = 18 /\ open # {} ->
             [step |-> "Disc", conn |-> RandomElement(open), req |-> [k |-> "none"], sid |-> 0]
-       [] roll \in 7..8 /\ closed # {} ->
+       [] roll \in 19..20 /\ closed # {} ->
             [step |-> "Open", conn |-> RandomElement(closed), req |-> [k |-> "none"], sid |-> 0]
-       [] roll = 9 /\ Recvs /\ open # {} ->
+       [] roll = 17 /\ Recvs /\ open # {} ->
             [step |-> "Recv", conn |-> RandomElement(open), req |-> RandomElement(ReqsAll[RandomElement(Kinds)]), sid |-> 0]
        [] OTHER ->
             IF open = {} THEN [step |-> "Open", conn |-> RandomElement(Conns), req |-> [k |-> "none"], sid |-> 0]
@@ -153,7 +164,7 @@ GenEvent(st) ==
                       [step |-> "Req", conn |-> c, sid |-> 0,
                        req |-> IF RandomElement(1..10) <= 8
                                THEN [j EXCEPT !.sid = RandomElement({0} \cup DOMAIN st.sess)] ELSE j]
-                 ELSE [step |-> "Req", conn |-> c, req |-> RandomElement(ReqsAll[RandomElement(Kinds)]), sid |-> 0]
+                 ELSE [step |-> "Req", conn |-> c, req |-> Patch(st, c, RandomElement(ReqsAll[RandomElement(Kinds)])), sid |-> 0]
 
 GenNext ==
   /\ Len(hist) < GenDepth
